@@ -58,4 +58,6 @@ def get(name):
     if m:
         f = {"square": T.square_polys, "brick": T.brick_polys, "hex": T.hex_polys}[m.group(1)]
         return T.polygons_at(f(int(m.group(2)), int(m.group(3))))
+    if name == "lens":
+        return T.lens_at(0.8)
     raise KeyError(name)
